@@ -67,4 +67,38 @@ PROPERTIES = {
              'percent-decoded URL text) was found by Command.to_bytes/ensures:one-line and repaired (fix: commit).',
         not_decided=['ftp/client.py Session (start/_log_in/_fetch_size) is not under contract yet: its commands all pass through Command.to_bytes'],
     ),
+    'C05': dict(
+        modules=['warc'], level='proof', bounded=['c05_reader.py'],
+        claim='WARCRecord.__iter__ yields exactly "WARC/1.0 CRLF" fields CRLF block CRLF CRLF and restores the block file position; compute_checksum sets '
+              'Content-Length to the block length, WARC-Block-Digest to sha1 of the whole block and WARC-Payload-Digest to sha1 of block[offset:] '
+              '(two distinct hasher objects, loop invariants over the 4096-byte reads); write_record stamps the id of the current warcinfo record. '
+              'BOUNDED (labelled): every file the real recorder writes for all 64 configurations, fed through the real HTTP recorder session with '
+              'non-canonical header formattings, is read back by an independent strict reader (lengths, CRLF CRLF, unique ids, warcinfo id, both digests).',
+        note='SHA-1 / base32 / uuid4 are uninterpreted; file read() returns exactly min(n, remaining) bytes; NameValueRecord serialisation and the HTTP '
+             'recorder session\'s payload offset are not under contract (bounded stand-in only). One genuine defect (payload offset from a re-serialised '
+             'header) was found by the stand-in and repaired (fix: commit).',
+        not_decided=['payload offset = end of the header block inside the response block (HTTPWARCRecorderSession.end_response): not under contract yet',
+                     'one gzip member per record: assumed property of gzip.GzipFile'],
+    ),
+    'C06': dict(
+        modules=['warc'], level='proof',
+        claim='write_record over a ghost file system: the crash invariant "archive unchanged, or a complete journal naming the pre-append length exists and the '
+              'archive extends the old bytes, or the append completed" is asserted at every effect point (open, each write incl. any partial prefix, close, '
+              'truncate, remove) on every path, with an OSError fork at each of them (one injected fault per execution); exceptional postcondition: archive '
+              'byte-identical to before and no journal; normal postcondition: earlier bytes intact, no journal; the start-up check returns normally only '
+              'if no file prefix*-wpullinc exists. Two genuine defects found by these obligations were repaired (fix: commit).',
+        note='file-system model assumed (pyvc/fsmodel.py): a failed write leaves any prefix; open modes w/a/r+; truncate cuts or zero-extends; process kill, not power '
+             'loss (no fsync anywhere in the code); GzipFile writes are opaque appends; glob of prefix*-wpullinc = existing paths with that prefix and suffix',
+        not_decided=['WARCRecorder.__init__ ordering (check before any write) is not under contract; covered by the bounded replay scenarios only'],
+    ),
+    'C07': dict(
+        modules=['warc'], level='proof', bounded=['c07_header.py', 'c07_cdx.py'],
+        claim='write_record hands _write_cdx_field exactly (record, growth of the file, size before the append) and the file name it appended to, once per record and '
+              'only when a CDX file is configured; _write_cdx_field appends nothing for non-response records and otherwise exactly one line whose nine columns '
+              'are in order URL, timestamp, MIME, status, digest, size, offset, basename(current file), record id; get_http_header restores the block position '
+              'and raises nothing but OSError. BOUNDED (labelled): status/MIME read back from the block versus a reference parser; end-to-end CDX lines versus '
+              'byte slices over all recorder configurations (rollover, appending, compression, log record).',
+        note='as C06 for the file model; the lazy-quantifier regex of get_http_header is checked by enumeration on the real code, not proved. One genuine defect '
+             '(missing re.DOTALL) was found by the obligation get_http_header/ensures:found-when-present and repaired (fix: commit).',
+    ),
 }
